@@ -127,7 +127,7 @@ CLAIMED = {
           "number of lines, empty lines, lines that look like an enhanced code - the reply writeResponse renders is read back by "
           "readResponse + toSMTPErr as an equal SMTPError), render_lines (what is written is exactly those lines, the enhanced code on each), "
           "C17_unset_class (unset => X.0.0 of the reply's class), C17_generic_envelope (451 4.0.0 text), C17_generic_data (554 5.0.0 Error: "
-          "transaction failed: text). Implementation: server rendering composed with client parsing on codes x enhanced-code modes x message "
+          "transaction failed: text); C17_lmtp_hello_reports_refusal (client model: in LMTP an error reply to LHLO - 500 and 502 included - is the result of the hello exchange, no HELO is tried; repaired in a135dac). Implementation: server rendering composed with client parsing on codes x enhanced-code modes x message "
           "shapes x call sites (rt probe), both halves separately (reply, tosmtperr probes), and the real client against the real server with a "
           "scripted refusing backend (e2e probe), judged by the normalisation law and compared with the model; conv probe: the verdict on a chunked message after an earlier chunked transfer of the connection was abandoned, judged against the delivery record.",
           "DESIGN.md 0.3 + 7 C17", "Lean 4 proof (render o parse) + law monitor + differential correspondence (rt, reply, tosmtperr, e2e probes)",
